@@ -281,8 +281,9 @@ class WindowGenerator(object):
 
         for first, last in self.firstlast:
             amp = np.ones(last - first)
-            amp[:self.overlap] = 1 if first == 0 else w
+            # the last window may be shorter than twice the overlap: its ramp-up must win over its flat end
             amp[-self.overlap:] = 1 if last == self.ns else np.flipud(w)
+            amp[:self.overlap] = 1 if first == 0 else w
             yield (first, last, amp)
 
     @property
